@@ -159,6 +159,10 @@ type genOpts struct {
 	// loads through its scalar path (the known-finding configuration).
 	UCharScalar bool
 	Large       bool
+	// ForceN: exactly this many vertices (directed sizes of the large phase)
+	ForceN int
+	// TexOnly: the directed triangle mesh whose only attribute is TexCoord
+	TexOnly bool
 }
 
 type paletteEntry struct {
@@ -203,12 +207,24 @@ func genMesh(r *rand.Rand, o genOpts) *meshCase {
 	if !o.Large && !o.UCharScalar && r.Intn(20) == 0 {
 		n = 0
 	}
+	if o.ForceN > 0 {
+		n = o.ForceN
+	}
+	if o.TexOnly {
+		mc.Tri = true
+		if n < 3 {
+			n = 3 + r.Intn(6)
+		}
+	}
 	mc.N = n
 
 	// --- indices
 	if mc.Tri {
 		pats := []string{"unwelded", "permutation", "welded", "unreferenced", "repeated", "random", "nofaces"}
 		pat := pats[r.Intn(len(pats))]
+		if o.TexOnly {
+			pat = []string{"unwelded", "welded", "welded", "permutation", "random", "nofaces"}[r.Intn(6)]
+		}
 		if n == 0 {
 			pat = "nofaces"
 		}
@@ -329,6 +345,9 @@ func genMesh(r *rand.Rand, o genOpts) *meshCase {
 	if o.Large {
 		scale = 0.5
 	}
+	if o.ForceN > 0 {
+		scale = 0.3 // the directed sizes are about record counts, not attribute mixes
+	}
 	for _, e := range recognisedPalette {
 		if r.Float64() < e.p*scale || (o.Large && e.name == modeling.PositionAttribute) {
 			add(e)
@@ -358,6 +377,10 @@ func genMesh(r *rand.Rand, o genOpts) *meshCase {
 		} else {
 			add(paletteEntry{nm, 1, 1, []string{"unit"}})
 		}
+	}
+	if o.TexOnly {
+		mc.Attrs = nil
+		add(paletteEntry{modeling.TexCoordAttribute, 2, 1, []string{"unit", "f64", "f32", "wide"}})
 	}
 	if n > 0 && len(mc.Attrs) == 0 {
 		add(recognisedPalette[0])
@@ -435,6 +458,23 @@ func plyType(t string) ply.ScalarPropertyType {
 }
 
 func genConfig(r *rand.Rand, mc *meshCase, o genOpts) config {
+	if o.TexOnly {
+		// directed: default writer | custom writer storing s/t per vertex | custom writer with nothing to apply
+		switch r.Intn(10) {
+		case 0, 1, 2, 3:
+			return config{Kind: "default", Writers: defaultWriters, Unspecified: true}
+		case 4, 5, 6:
+			typ := []string{"float", "double"}[r.Intn(2)]
+			return config{Kind: "custom", Unspecified: r.Intn(2) == 0,
+				Writers: []wspec{{Attr: modeling.TexCoordAttribute, Arity: 2, Names: []string{"s", "t"}, Type: typ, Ptr: r.Intn(2) == 0}}}
+		default:
+			cfg := config{Kind: "custom", Unspecified: r.Intn(2) == 0}
+			if r.Intn(2) == 0 {
+				cfg.Writers = append(cfg.Writers, defaultWriters[0])
+			}
+			return cfg
+		}
+	}
 	if !o.UCharScalar && r.Intn(5) < 2 {
 		return config{Kind: "default", Writers: defaultWriters, Unspecified: true}
 	}
